@@ -98,7 +98,8 @@ macro_rules! field_checks {
         // ---------------------------------------------------------------- unary methods
         let reals = [-2.5, -0.625, 0.3125, 0.75, 1.25, 2.0, 0.0, -0.0];
         let xs = operands::<F>(l, &reals, 0);
-        let ys = operands::<F>(l, &[-1.25, 0.5, 1.5, 0.0, -0.0], l.nslots());
+        // 2 and 10: values a `log(base)` implementation may special-case
+        let ys = operands::<F>(l, &[-1.25, 0.5, 1.5, 0.0, -0.0, 2.0, 10.0], l.nslots());
         // predicates on special values: non-finite real parts, and finite real parts carrying
         // non-finite derivative parts (e.g. sqrt of a seeded zero) - the real part alone decides
         for re in [1.5, 0.0, -0.0, f64::INFINITY, f64::NEG_INFINITY, f64::NAN] {
